@@ -1,5 +1,226 @@
-/- Driver for C08 (stub until the property's model is written). -/
+/- Driver for C08: real qmail-smtpd sessions / addrparse calls (harness/c08_session.c) vs `Nq.SmtpSession`;
+   oracle = the trace predicates of `Nq.Spec.SmtpPolicy` evaluated on the implementation's replies and envelopes.
+   Input lines:
+     C <cfg> <me> <rh> <more> <bmf> <lip> <relay> <ipme> <qq> <now> <qp>
+     A <cfg> <arg> <ok> <addr> <bmf> <allowed>
+     S <cfg> <chunk> <in> <exit> <replies> <nsub> {<from> <rcptto>}                                   -/
 import Drv.Util
-open Drv
-def handle (st : Stats) (_line : String) : IO Stats := return { st with cases := st.cases + 1 }
-def main : IO Unit := runDriver handle
+import Nq.Spec.SmtpPolicy
+
+open Nq Nq.SmtpIn Nq.SmtpSession Nq.SmtpPolicy Drv
+
+structure DState where
+  cfgid : String := ""
+  cfg : Cfg := {}
+  qq : QQ := {}
+
+def optHex (s : String) : Option (Option Bytes) := if s == "!" then some none else (unhex s).map some
+
+def ipsOf : Bytes → List Ip
+  | a :: b :: c :: d :: r => (a, b, c, d) :: ipsOf r
+  | _ => []
+
+def parseCfg : List String → Option DState
+  | [id, me, rh, more, bmf, lip, relay, ipme, qq, now, qp] => do
+    let me ← unhex me
+    let rh ← optHex rh
+    let more ← optHex more
+    let bmf ← optHex bmf
+    let lip ← optHex lip
+    let relay ← optHex relay
+    let ipme ← unhex ipme
+    let qqm ← qq.toNat?
+    let now ← now.toNat?
+    let qp ← qp.toNat?
+    let q : QQ := match qqm with
+      | 1 => { openFails := true }
+      | 2 => { close := str "Dqq permanent problem (#5.3.0)" }
+      | 3 => { close := str "Zqq temporary problem (#4.3.0)" }
+      | _ => {}
+    some { cfgid := id, cfg := Cfg.ofFiles me rh more bmf lip relay (ipsOf ipme) now qp, qq := q }
+  | _ => none
+
+/-! reply stream → groups (one per reply, continuation lines `ddd-` joined) -/
+
+def replyLines : Bytes → Bytes → List Bytes
+  | cur, [] => if cur.isEmpty then [] else [cur.reverse]
+  | cur, c :: r => if c = LF then (c :: cur).reverse :: replyLines [] r else replyLines (c :: cur) r
+
+def replyGroups : List Bytes → Bytes → List Bytes
+  | [], cur => if cur.isEmpty then [] else [cur]
+  | l :: ls, cur => if l.getD 3 0 = 45 then replyGroups ls (cur ++ l) else (cur ++ l) :: replyGroups ls []
+
+/-- code of a group: the first three bytes of its last line -/
+def groupCode (g : Bytes) : Bytes := ((replyLines [] g).getLast?.getD []).take 3
+
+def decRcpts : Bytes → Bytes → List Bytes
+  | [], cur => if cur.isEmpty then [] else [cur.reverse]
+  | c :: r, cur => if c = NUL then (cur.reverse.drop 1) :: decRcpts r [] else decRcpts r (c :: cur)
+
+/-- rebuild the implementation's trace from the input, its replies and its envelopes.
+Returns the events and the envelopes no DATA accounted for. -/
+partial def rebuild (cfg : Cfg) (inp : Bytes) (gs : List Bytes) (envs : List (Bytes × Bytes)) (acc : List Ev) :
+    List Ev × List (Bytes × Bytes) :=
+  match readLine inp, gs with
+  | some (l, rest), g :: gs' =>
+    let code := groupCode g
+    let ev (c : Cmd) (r : Reply) : Ev := (c, { replies := [r] })
+    match (parseLine l).1 with
+    | .helo => rebuild cfg rest gs' envs (acc ++ [ev .helo .helo])
+    | .ehlo => rebuild cfg rest gs' envs (acc ++ [ev .ehlo .ehlo])
+    | .rset => rebuild cfg rest gs' envs (acc ++ [ev .rset .flushed])
+    | .help => rebuild cfg rest gs' envs (acc ++ [ev .help .help])
+    | .noop => rebuild cfg rest gs' envs (acc ++ [ev .noop .noop])
+    | .vrfy => rebuild cfg rest gs' envs (acc ++ [ev .vrfy .vrfy])
+    | .unimpl => rebuild cfg rest gs' envs (acc ++ [ev .unimpl .unimpl])
+    | .quit => (acc ++ [(.quit, { replies := [.quit], halt := true })], envs)
+    | .mail => rebuild cfg rest gs' envs (acc ++ [ev (.mail (parseLine l).2) (if code = str "250" then .mailok else .syntax)])
+    | .rcpt =>
+      let r : Reply := if code = str "250" then .rcptok else if code = str "503" then .wantmail
+        else if code = str "555" then .syntax else if g = render cfg .bmf then .bmf else .nogateway
+      rebuild cfg rest gs' envs (acc ++ [ev (.rcpt (parseLine l).2) r])
+    | .data =>
+      if code = str "354" then
+        match rfcDecode rest with
+        | .accepted _ rest' =>
+          match gs' with
+          | g2 :: gs'' =>
+            let qqx := if groupCode g2 = str "250" then [] else g2
+            let (sub, envs') := match envs with
+              | (f, r) :: es => (some (Submit.mk f (decRcpts r []) qqx), es)
+              | [] => (none, [])
+            rebuild cfg rest' gs'' envs' (acc ++ [(.data { close := qqx }, { replies := [.go, closeReply qqx], submit := sub })])
+          | [] => (acc ++ [(.data {}, { replies := [.go], halt := true })], envs)
+        | .stray => (acc ++ [(.data { blast := .stray }, { replies := [.go, .stray], halt := true })], envs)
+        | .incomplete => (acc ++ [(.data { blast := .eof }, { replies := [.go], halt := true })], envs)
+      else
+        let r : Reply := if g = render cfg .wantrcpt then .wantrcpt else if code = str "503" then .wantmail else .qqt
+        rebuild cfg rest gs' envs (acc ++ [ev (.data { openFails := r == .qqt }) r])
+  | _, _ => (acc, envs)
+
+def showOpt (o : Option Bytes) : String := match o with | some b => hex b | none => "!"
+
+def handleA (ds : DState) (st : Stats) (cfgid argh okS addrh bmfS allowedS : String) : IO Stats := do
+  match unhex argh, unhex addrh with
+  | some arg, some addr =>
+    let cfg := ds.cfg
+    let h := hashBytes (arg ++ [0] ++ ds.cfgid.toUTF8.toList)
+    let fresh := !st.seen.contains h
+    let model := addrparse cfg arg
+    let nontriv := arg.contains AT || arg.contains LTc
+    let mut st := { st with cases := st.cases + 1, seen := st.seen.insert h,
+                            nontrivial := st.nontrivial + (if fresh && nontriv then 1 else 0) }
+    st := st.bump ("A_ok" ++ okS)
+    let agree := match okS, model with
+      | "1", some a => a == addr && bmfS == (if bmfcheck cfg a then "1" else "0") &&
+                       allowedS == (if rcpthostsMatch cfg a then "1" else "0")
+      | "0", none => true
+      | _, _ => false
+    if !agree then
+      let ms := match model with
+        | some a => s!"1 {hex a} {if bmfcheck cfg a then 1 else 0} {if rcpthostsMatch cfg a then 1 else 0}"
+        | none => "0"
+      IO.println s!"DISAGREE mode=A cfg={cfgid} in={argh} impl={okS} {addrh} {bmfS} {allowedS} model={ms}"
+      st := { st with disagree := st.disagree + 1 }
+    -- oracle on the implementation's answers
+    let expected := lipSpec cfg (addrRaw arg)
+    let bad : Option String :=
+      if okS == "1" then
+        if addr.length + 1 > Gen.ADDRMAX then some "address longer than the limit was accepted"
+        else if addr != expected then some s!"localiphost replacement: expected {hex expected}"
+        else if (bmfS == "1") != badSenderB cfg addr then some s!"bad-sender verdict, spec={badSenderB cfg addr}"
+        else if (allowedS == "1") != matchSpecB cfg addr then some s!"rcpthosts verdict, spec={matchSpecB cfg addr}"
+        else none
+      else if okS == "0" then
+        if expected.length + 1 > Gen.ADDRMAX then none else some "address within the limit was refused"
+      else some "addrparse/addrallowed did not return"
+    if let some why := bad then
+      IO.println s!"ORACLE mode=A cfg={cfgid} in={argh} impl={okS} addr={addrh} bmf={bmfS} allowed={allowedS} why={why.replace " " "_"}"
+      st := { st with oracle := st.oracle + 1 }
+    if fresh && st.samples < 2 && okS == "1" && arg.length ≥ 12 && arg.contains DQ then
+      IO.println s!"SAMPLE mode=A cfg={cfgid} arg={argh} addr={addrh} bmf={bmfS} allowed={allowedS}"
+      st := { st with samples := st.samples + 1 }
+    return st
+  | _, _ => IO.println s!"DISAGREE unparsable A line"; return { st with disagree := st.disagree + 1 }
+
+def pairs : List String → Option (List (Bytes × Bytes))
+  | [] => some []
+  | a :: b :: r => do
+    let x ← unhex a
+    let y ← unhex b
+    let t ← pairs r
+    some ((x, y) :: t)
+  | _ => none
+
+def handleS (ds : DState) (st : Stats) (cfgid chunk inh exitS replyh nsubS : String) (rest : List String) : IO Stats := do
+  match unhex inh, unhex replyh, pairs rest with
+  | some inp, some replies, some envs =>
+    let cfg := ds.cfg
+    let h := hashBytes (inp ++ [0] ++ ds.cfgid.toUTF8.toList)
+    let fresh := !st.seen.contains h
+    let tr := run cfg ds.qq inp
+    let mreply := replyStream cfg tr
+    let msubs := tr.filterMap (fun x => x.2.submit)
+    let mexit := match tr.getLast? with
+      | some (.quit, _) => "0"
+      | _ => "1"
+    let nontriv := tr.any (fun x => x.2.replies == [.rcptok] || x.2.replies == [.nogateway] || x.2.replies == [.bmf])
+    let mut st := { st with cases := st.cases + 1, seen := st.seen.insert h,
+                            nontrivial := st.nontrivial + (if fresh && nontriv then 1 else 0) }
+    st := st.bump ("S_chunk" ++ chunk)
+    st := st.bump ("S_submits" ++ (if envs.length ≥ 3 then "3+" else toString envs.length))
+    st := { st with counters := st.counters }
+    let agree := mreply == replies && mexit == exitS && nsubS.toNat? == some msubs.length &&
+      msubs.map (fun s => (s.sender, encRcpts s.rcpts)) == envs
+    if !agree then
+      let ms := " ".intercalate (msubs.map (fun s => s!"{hex s.sender} {hex (encRcpts s.rcpts)}"))
+      IO.println s!"DISAGREE mode=S cfg={cfgid} chunk={chunk} in={inh} impl={exitS} {replyh} {nsubS} {" ".intercalate rest} model={mexit} {hex mreply} {msubs.length} {ms}"
+      st := { st with disagree := st.disagree + 1 }
+    -- oracle: the sequencing and gating predicates on the implementation's own trace
+    let gs := replyGroups (replyLines [] replies) []
+    let (itr, left) := match gs with
+      | _banner :: gs' => rebuild cfg inp gs' envs []
+      | [] => ([], envs)
+    let bad : Option String :=
+      if !left.isEmpty then some s!"{left.length} envelope(s) handed to the queue without a DATA answered 354"
+      else match traceBad cfg [] itr 0 with
+        | some i =>
+          match itr[i]? with
+          | some (.rcpt arg, o) => some s!"command #{i} RCPT arg={hex arg} answered250={o.replies == [.rcptok]} but the gate predicate says {gateOKB cfg (itr.take i) arg}"
+          | some (_, o) =>
+            match o.submit with
+            | some sub => some s!"command #{i} DATA submitted sender={hex sub.sender} rcpts={hex (encRcpts sub.rcpts)}, which is not the open transaction"
+            | none => some s!"command #{i}"
+          | none => some s!"command #{i}"
+        | none => none
+    if let some why := bad then
+      IO.println s!"ORACLE mode=S cfg={cfgid} chunk={chunk} in={inh} replies={replyh} nsub={nsubS} env={",".intercalate rest} why={why.replace " " "_"}"
+      st := { st with oracle := st.oracle + 1 }
+    if fresh && st.samples < 4 && envs.length ≥ 1 && tr.length ≥ 5 && nontriv then
+      IO.println s!"SAMPLE mode=S cfg={cfgid} chunk={chunk} in={inh} replies={replyh} envelopes={",".intercalate rest}"
+      st := { st with samples := st.samples + 1 }
+    return st
+  | _, _, _ => IO.println s!"DISAGREE unparsable S line"; return { st with disagree := st.disagree + 1 }
+
+def handle (ref : IO.Ref DState) (st : Stats) (line : String) : IO Stats := do
+  match fields line with
+  | "C" :: rest =>
+    match parseCfg rest with
+    | some ds => ref.set ds; return st.bump "configs"
+    | none => IO.println s!"DISAGREE unparsable C line {line}"; return { st with disagree := st.disagree + 1 }
+  | ["A", cfgid, argh, okS, addrh, bmfS, allowedS] =>
+    let ds ← ref.get
+    if ds.cfgid != cfgid then
+      IO.println s!"DISAGREE case for configuration {cfgid} without its C line"; return { st with disagree := st.disagree + 1 }
+    handleA ds st cfgid argh okS addrh bmfS allowedS
+  | "S" :: cfgid :: chunk :: inh :: exitS :: replyh :: nsubS :: rest =>
+    let ds ← ref.get
+    if ds.cfgid != cfgid then
+      IO.println s!"DISAGREE case for configuration {cfgid} without its C line"; return { st with disagree := st.disagree + 1 }
+    handleS ds st cfgid chunk inh exitS replyh nsubS rest
+  | [] => return st
+  | _ => IO.println s!"DISAGREE unparsable line {line.take 200}"; return { st with disagree := st.disagree + 1 }
+
+def main : IO Unit := do
+  let ref ← IO.mkRef ({} : DState)
+  runDriver (handle ref)
